@@ -284,7 +284,22 @@ func (r *PaginatedResourceRepository[ResourceType, OptionsType]) Paginate(
 
 	switch v := any(paginationQuery).(type) {
 	case OffsetPaginatedQuery[OptionsType]:
+		// A cursor is client input and may lack what an initial query is given by default
+		if v.Column == "" {
+			v.Column = r.defaultPaginationColumn
+		}
+		if v.Order == nil {
+			v.Order = pointer.For(r.defaultOrder)
+		}
+		paginationQuery = v
 	case ColumnPaginatedQuery[OptionsType]:
+		if v.Column == "" {
+			v.Column = r.defaultPaginationColumn
+		}
+		if v.Order == nil {
+			v.Order = pointer.For(r.defaultOrder)
+		}
+		paginationQuery = v
 	case InitialPaginatedQuery[OptionsType]:
 
 		if v.Column == "" {
